@@ -77,8 +77,13 @@ class Walk:
             self.seen.add((kind, repr(what)))
             self.out.append((kind, what))
 
+    consts = False      # report constants as ('const', value) leaves (a rule about numbers wants them)
+
     def operand(self, fn, op, tr, depth, suffix=()):
-        if const_of(op) is not None:
+        c = const_of(op)
+        if c is not None:
+            if self.consts:
+                self.leaf("const", c.get("int", c.get("dbg", "?")))
             return
         if place_of(op) is None:
             self.leaf("?", "operand %s" % str(op)[:60])
@@ -117,7 +122,8 @@ class Walk:
                     elif kk == "agg":
                         self.aggregate(fn, rv.get("agg") == "closure", [fn.apath(o) for o in rv["ops"]], tr, depth - 1, projs)
                     elif kk in ("binop", "unop", "discr"):
-                        pass
+                        if self.consts and kk != "discr":
+                            self.leaf("?", "computed value %s" % kk)
                     else:
                         self.leaf("?", "rvalue %s" % kk)
                 else:
@@ -132,8 +138,12 @@ class Walk:
             self.aggregate(fn, str(root[1]).startswith("closure:"), list(root[2]), tr, depth - 1, projs)
         elif k == "cast":
             self.ap(fn, root[2], tr, depth - 1, projs)
-        elif k in ("binop", "unop", "discr", "const", "fn"):
-            pass
+        elif k == "const":
+            if self.consts:
+                self.leaf("const", root[1])
+        elif k in ("binop", "unop", "discr", "fn"):
+            if self.consts and k in ("binop", "unop"):
+                self.leaf("?", "computed value %s" % k)
         else:
             self.leaf("?", "%s" % (k,))
 
@@ -227,10 +237,11 @@ def producers(F, fn, operand, depth=8):
     return [(k, (ap_str(v) if k == "value" else v)) for k, v in w.out]
 
 
-def sources(F, fn, operand, depth=10):
+def sources(F, fn, operand, depth=10, consts=False):
     """Like producers, with the leaves that are plain values given as access paths: [('value', access path) | (callee, args) |
     ('?', text)]."""
     w = Walk(F, fn.crate)
+    w.consts = consts
     w.operand(fn, operand, lambda ap: ap, depth)
     return w.out
 
